@@ -43,6 +43,7 @@ type startEvent struct {
 	element     *schema.StartEvent
 	mch         chan imessage
 	once        sync.Once
+	running     atomic.Bool
 	activated   atomic.Bool
 	idGenerator id.IGenerator
 	satisfier   *logic.CatchEventSatisfier
@@ -113,6 +114,12 @@ func (evt *startEvent) flow(ctx context.Context) {
 }
 
 func (evt *startEvent) ConsumeEvent(ev event.IEvent) (result event.ConsumptionResult, err error) {
+	if !evt.running.Load() {
+		// the node has not been reached or triggered: its loop is not running and nobody
+		// would drain its inbox, so the event is dropped instead of blocking the caller
+		result = event.Consumed
+		return
+	}
 	evt.mch <- eventMessage{event: ev}
 	result = event.Consumed
 	return
@@ -121,6 +128,7 @@ func (evt *startEvent) ConsumeEvent(ev event.IEvent) (result event.ConsumptionRe
 func (evt *startEvent) Trigger(ctx context.Context) {
 	evt.once.Do(func() {
 		sender := evt.tracer.RegisterSender()
+		evt.running.Store(true)
 		go evt.run(ctx, sender)
 	})
 
@@ -130,6 +138,7 @@ func (evt *startEvent) Trigger(ctx context.Context) {
 func (evt *startEvent) NextAction(ctx context.Context, flow Flow) chan IAction {
 	evt.once.Do(func() {
 		sender := evt.tracer.RegisterSender()
+		evt.running.Store(true)
 		go evt.run(ctx, sender)
 	})
 
